@@ -258,25 +258,35 @@ fn hot_reloading_thread(
     select.recv(&cache_msg);
     select.recv(&events);
 
-    // Entries whose event was examined while no registered asset depended on
-    // them. An asset is registered by a message in `cache_msg`, which may
-    // still be queued when an event about one of its files is examined
-    // (though the asset was loaded before the file changed). Such entries are
-    // therefore kept until the messages that were queued at that time have
-    // been processed (`pending` of them are left).
+    // An event must only be examined once every message that was sent before
+    // it has been processed: the messages that register the assets that were
+    // loaded before the file changed, or that clear the pending reloads.
+    //
+    // This holds for events that were already there (or already received,
+    // see `carry`) before the messages were looked at. It does not hold for
+    // the events that a request takes into account, which may come from
+    // other threads: entries whose event was examined while no registered
+    // asset depended on them are kept in `unknown` until the messages that
+    // were queued at that time have been processed (`pending` of them are
+    // left), and matched against the assets these messages register.
     let mut unknown = Vec::new();
     let mut pending = 0;
+    let mut carry = None;
 
     loop {
         // We don't use `select` method here as we always want to check
         // `cache_msg` channel first.
-        let ready = if unknown.is_empty() {
+        let ready = if unknown.is_empty() && carry.is_none() {
             select.ready()
         } else {
             0
         };
         #[cfg(assets_manager_verif)]
         verif::schedule_point(0);
+
+        // The number of events that were queued before the messages below
+        // are looked at, and that no request has taken yet
+        let mut present = events.len();
 
         loop {
             let msg = match cache_msg.try_recv() {
@@ -307,11 +317,15 @@ fn hot_reloading_thread(
                     // stays a bounded amount of work whatever arrives
                     // meanwhile.
                     let known = unknown.len();
+                    if let Some(msg) = carry.take() {
+                        cache.handle_events(msg, &mut unknown);
+                    }
                     for _ in 0..events.len() {
                         match events.try_recv() {
                             Ok(msg) => cache.handle_events(msg, &mut unknown),
                             Err(_) => break,
                         }
+                        present = present.saturating_sub(1);
                     }
                     if unknown.len() > known {
                         pending = pending.max(cache_msg.len());
@@ -335,15 +349,26 @@ fn hot_reloading_thread(
         // Nothing is queued anymore
         unknown.clear();
         pending = 0;
+        cache.update_if_static();
 
-        if ready == 1 {
+        if let Some(msg) = carry.take() {
+            // It was received before the messages above were looked at
+            cache.handle_events(msg, &mut unknown);
+            unknown.clear();
+        } else if present > 0 || ready == 1 {
             #[cfg(assets_manager_verif)]
             verif::schedule_point(1);
             match events.try_recv() {
-                Ok(msg) => {
+                // This event was there before the messages above were looked
+                // at: what it says about entries that no asset uses can be
+                // forgotten
+                Ok(msg) if present > 0 => {
                     cache.handle_events(msg, &mut unknown);
-                    pending = cache_msg.len();
+                    unknown.clear();
                 }
+                // This one was not: it is examined after the messages that
+                // are queued by now
+                Ok(msg) => carry = Some(msg),
                 Err(crossbeam_channel::TryRecvError::Empty) => (),
                 // We won't receive events anymore, we can stop now
                 Err(crossbeam_channel::TryRecvError::Disconnected) => break,
